@@ -3,7 +3,7 @@
 wt="$1"; name="$2"; prop="$3"; caught="$4"
 d=/verif/seeded/$name; mkdir -p $d
 cp $wt/patch.diff $d/patch.diff
-cp $wt/gnark-plonky2-verifier/tests/zz_*_test.go $d/ 2>/dev/null
+(cd $wt/gnark-plonky2-verifier && for f in $(find . -name "zz_*_test.go"); do cp "$f" "$d/$(echo "$f" | sed "s|^\./||; s|/|__|g")"; done)
 cp $wt/meta.txt $d/agent_meta.txt 2>/dev/null
 python3 - "$wt" "$d" "$prop" "$caught" <<'PY'
 import json,sys,re
